@@ -128,7 +128,12 @@ func padCount(t *Term) (*Term, bool) {
 
 // evalSmall folds an integer/boolean term in which the only unknown is the sub-term printed as sym, given value v.
 func evalSmall(t *Term, sym string, v int64) (int64, bool) {
-	if t.String() == sym {
+	return evalEnv(t, map[string]int64{sym: v})
+}
+
+// evalEnv folds an integer/boolean term whose unknowns are the sub-terms printed as the keys of env.
+func evalEnv(t *Term, env map[string]int64) (int64, bool) {
+	if v, ok := env[t.String()]; ok {
 		return v, true
 	}
 	switch {
@@ -139,10 +144,10 @@ func evalSmall(t *Term, sym string, v int64) (int64, bool) {
 		}
 		return n, true
 	case t.Op == "conv" && len(t.Args) == 1:
-		return evalSmall(t.Args[0], sym, v)
+		return evalEnv(t.Args[0], env)
 	case t.Op == "bin" && len(t.Args) == 2:
-		a, ok1 := evalSmall(t.Args[0], sym, v)
-		b, ok2 := evalSmall(t.Args[1], sym, v)
+		a, ok1 := evalEnv(t.Args[0], env)
+		b, ok2 := evalEnv(t.Args[1], env)
 		if !ok1 || !ok2 {
 			return 0, false
 		}
